@@ -72,6 +72,9 @@ class DocGen(object):
         cell = lambda: r.choice(["", "x", "a|b", "|", "ü", "1 2", "<c>", "c:d", "\"", "#no comment", "@t"])
         header = ["h%d%s" % (i, r.choice(["", " x", "|y"])) for i in range(ncols)]
         rows = [[cell() for _ in range(ncols)] for _ in range(r.randint(0, 3))]
+        if r.random() < 0.15:
+            # a "nothing here" row: every cell a dash or a run of dashes (what a Markdown ruler looks like -- in Gherkin a row like any other)
+            rows.insert(r.randrange(len(rows) + 1), [r.choice(["-", "--", "---", ":-:", ":--", "--:"]) for _ in range(ncols)])
         return {"header": header, "rows": rows}
 
     def doc(self):
@@ -79,7 +82,9 @@ class DocGen(object):
         lines = []
         for _ in range(r.randint(0, 4)):
             lines.append(r.choice(["", "plain line", "  indented", "    more ÄÖ", "| not a table |", "@not a tag", "# not a comment",
-                                   "Given not a step", "'''" if False else "''x", "tail\\"]))
+                                   "Given not a step", "''x", "tail\\",
+                                   # the OTHER delimiter is ordinary content (a text opened with """ may contain a line ''' and vice versa)
+                                   "'''", '"""', "  '''", '""" quoted']))
         quote = r.choice(['"""', "'''"])
         # a content line must not start with the terminator
         lines = [ln for ln in lines if not ln.strip().startswith(quote)]
